@@ -9,19 +9,19 @@ CLAIMED = {
          'Sizes {0,1,B-1,B,B+1,2B-1,2B,2B+1,3B+1} x block sizes {1,2,3,7,4096,usize::MAX} x prior destination {absent, shorter, longer, same length} x drivers x workers x reflink x progress, every data/hole string up to a length bound in 4 KiB (thorough: 64 KiB) units, small trees, files of 4-5 GiB whose data islands straddle the 2 GiB and 4 GiB offsets, and (thorough) one file larger than a single kernel copy request: exit 0 => destination byte-identical, nothing of a previous destination survives.',
          'Pre-emption at visible system calls and hook markers (and before the atomic instructions of the program itself where the evidence says atomic grain); crossbeam-channel, blocking-threadpool, Arc internals and the kernel trusted; one kernel, ext4 (+tmpfs); bounds as reported in the evidence file (DESIGN 3.1.7, 10).'),
  'C02': ('model_checking', "bounded-exhaustive enumeration of scenarios (explicit-state search over a small input alphabet), each executed by the real binary under the supervisor's deterministic schedules and compared with a reference model",
-         "Source selections (incl. a directory of unusual names over a 24-level chain) x destination states x spellings x {-,-T,--target-directory,-L} x drivers plus glob-selected sources, against a reference model of cp's mapping rule: exit 0 => whole sandbox equals the expected tree; entries that are no mapped target are identical before/after whatever the exit status.",
+         "Source selections (incl. a directory of unusual names over a 24-level chain) x destination states x spellings x {-,-T,--target-directory,-L} x drivers plus glob-selected sources and a schedule search (d <= 1, thorough 2; pre-emptions and timers expiring first; base policies P0/P1/P2) on a small tree, against a reference model of cp's mapping rule: exit 0 => whole sandbox equals the expected tree; entries that are no mapped target are identical before/after whatever the exit status.",
          'Pre-emption at visible system calls and hook markers (and before the atomic instructions of the program itself where the evidence says atomic grain); crossbeam-channel, blocking-threadpool, Arc internals and the kernel trusted; one kernel, ext4 (+tmpfs); bounds as reported in the evidence file (DESIGN 3.1.7, 10). Undefined inputs (two sources onto one path, ./.. as source, destination inside a source) are outside the alphabet.'),
  'C03': ('fault_enumeration', 'exhaustive fault / short-count / kill-point enumeration at every system call of recorded executions of the real binary (xsup fault injector)',
          "Fifteen alias relations between a source and its mapped destination (path spellings, symbolic/hard links, symlinked directories, recursive forms, special files) x drivers x backup modes; SIGKILL at every decision point of an overwrite-with-backup copy; every single injected failure of C04's sites: all sources and bystanders identical before/after incl. ctime and inode.",
          'Pre-emption at visible system calls and hook markers (and before the atomic instructions of the program itself where the evidence says atomic grain); crossbeam-channel, blocking-threadpool, Arc internals and the kernel trusted; one kernel, ext4 (+tmpfs); bounds as reported in the evidence file (DESIGN 3.1.7, 10). Kill = process kill between system calls; power loss not modelled.'),
  'C04': ('fault_enumeration', 'exhaustive fault / short-count / kill-point enumeration at every system call of recorded executions of the real binary (xsup fault injector)',
-         'One execution per (system call site, errno) for every visible call of the walker, dispatcher and workers of both drivers on a tree with multi-block, small, empty, one-byte and sparse files, empty and nested directories, a link and a FIFO, copied onto fresh / populated (backup, fsync) / cloned destinations, plus one scenario per option family (-L, --gitignore, --glob, -n, --ownership with --backup=auto, --no-progress, one worker); thorough adds all ordered pairs of faults and faults x one scheduling deviation: exit != 0 or the destination equals the reference tree incl. mode/mtime and no fsync failed.',
+         'One execution per (system call site, errno) for every visible call of the walker, dispatcher and workers of both drivers on a tree with multi-block, small, empty, one-byte and sparse files, empty and nested directories, a link and a FIFO, copied onto fresh / populated (backup, fsync) / cloned destinations, plus one scenario per option family (-L, --gitignore, --glob, -n, --ownership with --backup=auto, --no-progress, one worker); a failing step after 150 files while the main thread is starved (timed waits may expire first); thorough adds all ordered pairs of faults and faults x one scheduling deviation: exit != 0 or the destination equals the reference tree incl. mode/mtime and no fsync failed.',
          'Pre-emption at visible system calls and hook markers (and before the atomic instructions of the program itself where the evidence says atomic grain); crossbeam-channel, blocking-threadpool, Arc internals and the kernel trusted; one kernel, ext4 (+tmpfs); bounds as reported in the evidence file (DESIGN 3.1.7, 10). xattr and chown failures are tolerated by the property and not injected.'),
  'C05': ('fault_enumeration', 'exhaustive fault / short-count / kill-point enumeration at every system call of recorded executions of the real binary (xsup fault injector)',
          'Every legal short count at every data-moving call of tiny files (all sizes 1..10/16, block sizes 3/n/MAX), small-kernel runs, copy_file_range/FICLONE/FIEMAP answered as unsupported combined with every clamp and EINTR on the fallback, SEEK_DATA/SEEK_HOLE answered EINVAL, sparse layouts, the same against a build without the Linux backend, and the schedule search (d <= 1, thorough 2) on the fallback without copy_file_range: exit 0 => byte-exact destination.',
          'Pre-emption at visible system calls and hook markers (and before the atomic instructions of the program itself where the evidence says atomic grain); crossbeam-channel, blocking-threadpool, Arc internals and the kernel trusted; one kernel, ext4 (+tmpfs); bounds as reported in the evidence file (DESIGN 3.1.7, 10).'),
  'C06': ('model_checking', 'stateless model checking of the real binary: exhaustive deviation-bounded schedule search at system-call granularity under a ptrace supervisor with futex emulation (xsup)',
-         'Every execution with <= d scheduling deviations from two base policies on scenario sets S1-S4 (both drivers, workers 1..64): exit 0, equals the reference tree incl. mode and mtime, directory exists before anything is created inside it, no data write after metadata was applied.',
+         'Every execution with <= d scheduling deviations from two base policies on scenario sets S1-S6 (both drivers, workers 1..64; base policies P0, P1 and the eager-parking P2; atomic grain on the smallest), and 600 files under RLIMIT_NOFILE=1024 under producer-first and round-robin policies: exit 0, equals the reference tree incl. mode and mtime, directory exists before anything is created inside it, no data write after metadata was applied.',
          'Pre-emption at visible system calls and hook markers (and before the atomic instructions of the program itself where the evidence says atomic grain); crossbeam-channel, blocking-threadpool, Arc internals and the kernel trusted; one kernel, ext4 (+tmpfs); bounds as reported in the evidence file (DESIGN 3.1.7, 10).'),
  'C07': ('model_checking', 'stateless model checking of the real binary: exhaustive deviation-bounded schedule search at system-call granularity under a ptrace supervisor with futex emulation (xsup)',
          'The supervisor owns all blocking, so deadlock (no runnable thread), spinning (step budget) and blocking on a FIFO are decided structurally on every execution of the schedule search, of termination-specific scenarios (empty tree, FIFOs only, dying workers with 300 operations pending, block size 0, special files at the destination path / behind links / as the ignore file / selected by a pattern), of every short count at every data-moving call, of every single injected failure, and of a library client (copy returns, channel closes).',
@@ -33,7 +33,7 @@ CLAIMED = {
          'All histories of <= 3 (thorough 4) copy steps over backup modes x name classes (space, prefix pair, look-alike, non-UTF-8) x pre-existing backup numbers (gaps, 2^32, u64::MAX) x drivers against a history model; SIGKILL at every decision point of an overwrite step; injected getdents64/statx/rename/open failures; schedule search on the pair classes.',
          'Pre-emption at visible system calls and hook markers (and before the atomic instructions of the program itself where the evidence says atomic grain); crossbeam-channel, blocking-threadpool, Arc internals and the kernel trusted; one kernel, ext4 (+tmpfs); bounds as reported in the evidence file (DESIGN 3.1.7, 10).'),
  'C10': ('model_checking', "bounded-exhaustive enumeration of scenarios (explicit-state search over a small input alphabet), each executed by the real binary under the supervisor's deterministic schedules and compared with a reference model",
-         'All 4096 modes x drivers x ownership, mtimes to the nanosecond incl. pre-1970, xattr sets, uid/gid pairs, the full flag product, all pairs of 15 options, copies made by an unprivileged user, fresh/overwritten, one refused xattr/chown call at each such call of a three-file copy (tolerated for the file it hits only), plus the parblock schedule search on multi-block files: exit 0 => mode, mtime, xattrs, owner as requested.',
+         'All 4096 modes x drivers x ownership, mtimes to the nanosecond incl. pre-1970, xattr sets, uid/gid pairs, the full flag product, all pairs of 15 options, copies made by an unprivileged user, fresh/overwritten, one refused xattr/chown call at each such call of a three-file copy (tolerated for the file it hits only), a schedule search with --no-perms, plus the parblock schedule search on multi-block files: exit 0 => mode, mtime, xattrs, owner as requested.',
          'Pre-emption at visible system calls and hook markers (and before the atomic instructions of the program itself where the evidence says atomic grain); crossbeam-channel, blocking-threadpool, Arc internals and the kernel trusted; one kernel, ext4 (+tmpfs); bounds as reported in the evidence file (DESIGN 3.1.7, 10). Runs as root.'),
  'C11': ('model_checking', "bounded-exhaustive enumeration of scenarios (explicit-state search over a small input alphabet), each executed by the real binary under the supervisor's deterministic schedules and compared with a reference model",
          "Every data/hole string up to 5 (thorough 6) units of 1 MiB x 5 block sizes x drivers x workers x fresh/fully allocated destination, files of 31..100 extents, hole-size scaling, data islands straddling the 2 GiB and 4 GiB offsets, several sources where extent mapping is unsupported for the first only: allocation within rounding of the source's, destination data map inside the source's.",
@@ -45,13 +45,13 @@ CLAIMED = {
          '19 link shapes (chains to 41, dangling, cycles, ancestors, inside linked directories) alone and in pairs, in a tree, as top-level source with and without -r and selected by --glob, every readlink/stat of a source path failing, both drivers: no link in the destination, contents resolved, dangling/cyclic => non-zero exit.',
          'Pre-emption at visible system calls and hook markers (and before the atomic instructions of the program itself where the evidence says atomic grain); crossbeam-channel, blocking-threadpool, Arc internals and the kernel trusted; one kernel, ext4 (+tmpfs); bounds as reported in the evidence file (DESIGN 3.1.7, 10).'),
  'C14': ('model_checking', "bounded-exhaustive enumeration of scenarios (explicit-state search over a small input alphabet), each executed by the real binary under the supervisor's deterministic schedules and compared with a reference model",
-         'Node kind x device number x mode (incl. set-id and sticky bits) x umask x position x destination state x -n x drivers, block devices, mixed tree, four nodes under schedule search (umask is a decision point), two nodes onto one path under -n: same type and st_rdev, mode & ~umask, replaced unless -n, never opened/read (trace monitor).',
+         'Node kind x device number x mode (incl. set-id and sticky bits) x umask x position x destination state x -n x drivers, block devices, mixed tree, an existing identical node, one to three workers handling four nodes under schedule search (umask is a decision point, policies P0/P1/P2), two nodes onto one path under -n: same type and st_rdev, mode & ~umask, replaced unless -n, never opened/read (trace monitor).',
          'Pre-emption at visible system calls and hook markers (and before the atomic instructions of the program itself where the evidence says atomic grain); crossbeam-channel, blocking-threadpool, Arc internals and the kernel trusted; one kernel, ext4 (+tmpfs); bounds as reported in the evidence file (DESIGN 3.1.7, 10). Runs as root (mknod).'),
  'C15': ('fault_enumeration', 'exhaustive fault / short-count / kill-point enumeration at every system call of recorded executions of the real binary (xsup fault injector)',
          'Every vector of answers to the FICLONE calls from {real fs, EOPNOTSUPP, EINVAL, EXDEV, EIO, EPERM, emulated success} x modes x trees (dense, empty, sparse, overwriting) x drivers, also verbose with a healthy and a failing log stream, judged on the system-call trace.',
          'Pre-emption at visible system calls and hook markers (and before the atomic instructions of the program itself where the evidence says atomic grain); crossbeam-channel, blocking-threadpool, Arc internals and the kernel trusted; one kernel, ext4 (+tmpfs); bounds as reported in the evidence file (DESIGN 3.1.7, 10). Clone success is emulated by the supervisor (no reflink-capable fs in the sandbox).'),
  'C16': ('model_checking', "bounded-exhaustive enumeration of scenarios (explicit-state search over a small input alphabet), each executed by the real binary under the supervisor's deterministic schedules and compared with a reference model",
-         'Every rejection class (also spelled through --glob and through links to directories) x position of the offending argument x destination state x driver, and source and destination being one file under 15 spellings x backup modes: non-zero exit and the sandbox identical before/after in every snapshot field.',
+         'Every rejection class (also spelled through --glob and through links to directories) x position of the offending argument x destination state x driver, several sources onto a non-directory also spelled with --target-directory, and source and destination being one file under 15 spellings x backup modes: non-zero exit and the sandbox identical before/after in every snapshot field.',
          'Pre-emption at visible system calls and hook markers (and before the atomic instructions of the program itself where the evidence says atomic grain); crossbeam-channel, blocking-threadpool, Arc internals and the kernel trusted; one kernel, ext4 (+tmpfs); bounds as reported in the evidence file (DESIGN 3.1.7, 10).'),
  'C17': ('model_checking', "bounded-exhaustive enumeration of scenarios (explicit-state search over a small input alphabet), each executed by the real binary under the supervisor's deterministic schedules and compared with a reference model",
          'Every .gitignore of 1-2 (thorough 3) lines over a 30-pattern alphabet on a 17-entry tree x drivers, three sources with every combination of four ignore files, and every open/read/stat of the ignore file or of a source entry failing; oracle is git check-ignore itself.',
@@ -60,10 +60,10 @@ CLAIMED = {
          'Schedule search with --fsync on all sets plus empty/one-byte/emulated-reflink files, -vv variants, the metadata flag product, the user-space fallback, and one refused fsync at each fsync call of a five-file copy: in the totally ordered trace each copied file has a successful fsync after its last write-class call.',
          'Pre-emption at visible system calls and hook markers (and before the atomic instructions of the program itself where the evidence says atomic grain); crossbeam-channel, blocking-threadpool, Arc internals and the kernel trusted; one kernel, ext4 (+tmpfs); bounds as reported in the evidence file (DESIGN 3.1.7, 10). fsync is recorded and answered 0 by the supervisor.'),
  'C19': ('model_checking', "bounded-exhaustive enumeration of scenarios (explicit-state search over a small input alphabet), each executed by the real binary under the supervisor's deterministic schedules and compared with a reference model",
-         'merge_extents on every sorted extent list over 0..12 (thorough 0..15) and with shared-flag vectors, every list sorted by start incl. overlapping and nested extents; map_extents / merged / segment walk on every data/hole string in 4 KiB units, 31..100-extent files, preallocated files, just written and after fsync, ext4 and tmpfs: every byte outside the ranges is zero; merge covers inputs and adds only gaps.',
+         'merge_extents on every sorted extent list over 0..12 (thorough 0..15) and with shared-flag vectors, every list sorted by start incl. overlapping and nested extents; map_extents / merged / segment walk on every data/hole string in 4 KiB units, 31..100-extent files, preallocated files, just written and after fsync, ext4 and tmpfs, and the segment walk under the supervisor with one (or every) SEEK_DATA/SEEK_HOLE call refused: every byte outside the ranges is zero; merge covers inputs and adds only gaps.',
          'Pre-emption at visible system calls and hook markers (and before the atomic instructions of the program itself where the evidence says atomic grain); crossbeam-channel, blocking-threadpool, Arc internals and the kernel trusted; one kernel, ext4 (+tmpfs); bounds as reported in the evidence file (DESIGN 3.1.7, 10). FIEMAP page shapes the kernel does not produce are not enumerated.'),
  'C20': ('model_checking', 'stateless model checking of the real binary: exhaustive deviation-bounded schedule search at system-call granularity under a ptrace supervisor with futex emulation (xsup)',
-         'Every static priority order over the thread roles x file counts x workers x drivers with descriptor accounting, plus --fsync runs, a 300-level deep tree, hundreds of source arguments under round-robin policies, a held worker, and runs with more files than RLIMIT_NOFILE=1024: peak descriptors <= 11+2*(128+w+1), no growth beyond saturation, exit 0.',
+         'Every static priority order over the thread roles x file counts x workers x drivers with descriptor accounting, plus --fsync runs, a 300-level deep tree, hundreds of source arguments under round-robin policies, a held worker, 150/300 files at atomic grain under eager priority orders, and runs with more files than RLIMIT_NOFILE=1024: peak descriptors <= 11+2*(128+w+1), no growth beyond saturation, exit 0.',
          'Pre-emption at visible system calls and hook markers (and before the atomic instructions of the program itself where the evidence says atomic grain); crossbeam-channel, blocking-threadpool, Arc internals and the kernel trusted; one kernel, ext4 (+tmpfs); bounds as reported in the evidence file (DESIGN 3.1.7, 10). Exhaustive over priority orders, not over all interleavings of a 300-file run.'),
 }
 ALL = ["C%02d" % i for i in range(1, 21)]
